@@ -80,7 +80,19 @@ func genC10(r *Rng, tier string) *Plan {
 		flags |= FlagE
 		g.P.Meta["near-expiry"] = "1"
 	}
-	if r.Chance(3, 4) {
+	bigOid := r.Chance(1, 20)
+	if bigOid {
+		// an OID with an arc beyond 2^31 somewhere in one configuration: gopki may refuse it; if it
+		// issues the certificate, the next run has to find nothing to do like after any other run
+		e := Pick(r, g.Ents)
+		g.P.Meta["big-oid"] = addBigOid(r, e)
+		for i := range g.P.Ops {
+			if g.P.Ops[i].K == "put-ent" && g.P.Ops[i].Spec.ID == e.ID {
+				g.P.Ops[i].Spec = e
+			}
+		}
+	}
+	if r.Chance(3, 4) && !bigOid {
 		g.Run(DefaultFlags, "setup")
 		g.P.Meta["setup-run"] = "1"
 		if r.Chance(1, 4) {
